@@ -28,7 +28,7 @@ class C13(scen.PairProp):
                   "strike times in the two runs are equal. non-trivial = the two human histories differ")
 
     def cases(self, rng, tier):
-        n = 40 if tier == "quick" else 300
+        n = 120 if tier == "quick" else 900
         for i in range(n):
             N = rng.choice([6, 8, 8, 12])
             humans = sorted(rng.sample(range(2, N + 1), rng.randint(1, N - 2)))
